@@ -99,6 +99,28 @@ theorem receive_next_frame_exact (cap : Nat) (hcap : cap > 0) (b : Bufio) (net :
   rw [h1]
   simp [h2]
 
+/-- **Any number of frames, any segmentation**: if the pending stream starts with `k` complete frames
+    (each without a NUL inside), `k` successive `receive` calls return exactly the decodings of those
+    frames, in order — whatever the frames contain (replies, error frames, garbage) and however the bytes
+    arrive — and leave exactly the rest pending. -/
+theorem receiveN_exact (cap : Nat) (hcap : cap > 0) :
+    ∀ (frames : List Bytes), (∀ f ∈ frames, (0 : UInt8) ∉ f) →
+    ∀ (b : Bufio) (net : Net) (rest : Bytes),
+      pending b net = (frames.map fun f => f ++ [0]).flatten ++ rest →
+      receiveN cap frames.length b net = frames.map receiveFrame := by
+  intro frames
+  induction frames with
+  | nil => intro _ b net rest _; simp [receiveN]
+  | cons f fs ih =>
+    intro hall b net rest hp
+    have hf := hall f (by simp)
+    have hp' : pending b net = f ++ 0 :: ((fs.map fun g => g ++ [0]).flatten ++ rest) := by
+      rw [hp]; simp [List.append_assoc]
+    obtain ⟨h1, h2⟩ := receive_next_frame_exact cap hcap b net f _ hf hp'
+    have hrec := ih (fun g hg => hall g (by simp [hg])) (receive cap b net).2.1 (receive cap b net).2.2 rest h2
+    simp only [List.length_cons, receiveN, List.map_cons]
+    rw [h1, hrec]
+
 /-- the bare literal `null` counts as an empty reply -/
 def isEmptyReply : RecvResult → Bool
   | .reply none false => true
